@@ -62,7 +62,9 @@ fn mutate(rng: &mut Rng, text: &str, nrows: usize) -> String {
     let mut lines: Vec<Vec<String>> = text.split('\n').map(|l| l.split(' ').map(|t| t.to_string()).collect()).collect();
     for _ in 0..rng.range(1, 3) {
         let li = rng.below(lines.len());
-        match rng.below(11) {
+        match rng.below(12) {
+            // repeat a token somewhere else in the same line (a column list naming the same row twice, not necessarily next to each other)
+            11 => { if lines[li].len() >= 2 { let t = rng.below(lines[li].len()); let x = lines[li][t].clone(); let pos = rng.below(lines[li].len() + 1); lines[li].insert(pos, x); } }
             // respell a number without changing its value: `usize::from_str` accepts a leading `+` and leading zeros
             // (so "00" / "+0" are padding zeros and "+3" / "003" are the index 3)
             9 | 10 => { if !lines[li].is_empty() { let t = rng.below(lines[li].len());
